@@ -1012,11 +1012,40 @@ func c11Bootstrap(c *Ctx, pkCtl *packages.Package) {
 	}
 	info := fr.Info()
 	var es *encSwitch
+	// the switch lies in getImageForMessageRef, or in a function of the package it calls (the decoding step on its own)
+	calledByEntry := map[*ast.FuncDecl]bool{fr.Decl: true}
+	ast.Inspect(fr.Decl.Body, func(n ast.Node) bool {
+		if call, ok := n.(*ast.CallExpr); ok {
+			if fn := Callee(info, call); fn != nil && fn.Pkg() == pkCtl.Types {
+				if h := p.DeclOf(fn); h != nil {
+					calledByEntry[h.Decl] = true
+				}
+			}
+		}
+		return true
+	})
 	for _, s := range findEncodingSwitches(p, pkCtl, "MessageEncoding") {
-		if s.Fn.Decl == fr.Decl {
+		if s.Fn.Decl == fr.Decl || (es == nil && calledByEntry[s.Fn.Decl]) {
 			s := s
 			es = &s
 		}
+	}
+	var afterSwitch []ast.Node // WithNoReparse calls of the switch's function that lie outside the switch
+	var swCFG *FnCFG
+	if es != nil {
+		info = es.Fn.Info()
+		swCFG = p.CFGOf(es.Fn.Decl.Body, info)
+		ast.Inspect(es.Fn.Decl.Body, func(n ast.Node) bool {
+			if n == ast.Node(es.Switch) {
+				return false
+			}
+			if call, ok := n.(*ast.CallExpr); ok {
+				if fn := Callee(info, call); fn != nil && fn.Name() == "WithNoReparse" {
+					afterSwitch = append(afterSwitch, call)
+				}
+			}
+			return true
+		})
 	}
 	if es == nil {
 		c.Fail("BOOTSTRAP", "switch", fr.Decl.Pos(), "no switch over MessageEncoding in getImageForMessageRef")
@@ -1034,6 +1063,18 @@ func c11Bootstrap(c *Ctx, pkCtl *packages.Package) {
 				}
 				return true
 			})
+		}
+		// WithNoReparse added once after the switch counts for every arm that gets there
+		for _, nrCall := range afterSwitch {
+			for _, s := range cc.Body {
+				// compound statements are not CFG nodes: ask for the calls inside them
+				ast.Inspect(s, func(n ast.Node) bool {
+					if call, ok := n.(*ast.CallExpr); ok && swCFG.Reachable(call, nrCall) {
+						addsNoReparse = true
+					}
+					return true
+				})
+			}
 		}
 		// the arm is a two-pass itself, or calls a helper of the package that is one
 		tp := twoPassShape(info, cc.Body)
